@@ -176,6 +176,19 @@ func (p *c14) Run(rec *core.Recorder, seed uint64, idx int, tier string) {
 				shortB.WriteString(marker)
 				longB.WriteString(marker + pd.filler)
 				off += len(marker) + len(pd.filler)
+			} else if mode != 2 && r.P(1, 4) {
+				// a bare comment (no marker in front): short in the baseline, long in the variant; comments
+				// contribute nothing, so both outputs must be identical even when the comment touches a dashed delimiter
+				if n < 8 {
+					n = 8
+				}
+				k--
+				short := "{# s #}"
+				long := "{# " + c14Filler(r, n-6) + " #}"
+				shortB.WriteString(short)
+				longB.WriteString(long)
+				off += len(long)
+				rec.Count("bare-comment-pads", 1)
 			} else {
 				pd.comment = r.P(1, 3)
 				fl := c14Filler(r, n)
